@@ -26,6 +26,31 @@ def _canon(x):
     return json.loads(json.dumps(x, sort_keys=True, default=str))
 
 
+def safe_run(P, c):
+    """run the real code on one case; an unexpected exception escaping the harness is itself an
+    observation (the public API behaved in a way the harness did not anticipate)"""
+    try:
+        return _canon(P.run_code(c))
+    except Exception as e:  # noqa
+        tb = traceback.format_exc().strip().splitlines()
+        return {"unexpected-exception": f"{type(e).__name__}: {e}"[:300], "where": tb[-3:]}
+
+
+def safe_spec(P, c, out):
+    if isinstance(out, dict) and "unexpected-exception" in out:
+        return f"real code raised unexpectedly: {out['unexpected-exception']}"
+    return P.spec_violation(c, out)
+
+
+def safe_agree(P, c, code, model):
+    if isinstance(code, dict) and "unexpected-exception" in code:
+        return False
+    try:
+        return P.agree(c, code, model)
+    except Exception:
+        return False
+
+
 def run(prop_id, tier, replay=None):
     t0 = time.time()
     seed = int(os.environ.get("VERIF_SEED", "0") or 0)
@@ -40,8 +65,8 @@ def run(prop_id, tier, replay=None):
         if case is None:
             print(f"replay {replay}: no concrete input recorded ({rep.get('kind')}): {rep.get('broken')}")
             return 1
-        out = P.run_code(case)
-        why = P.spec_violation(case, out)
+        out = safe_run(P, case)
+        why = safe_spec(P, case, out)
         print(json.dumps({"case": case, "code_out": out, "violation": why}, indent=1, default=str))
         if why:
             print(f"VIOLATION property={prop_id} replay={replay}")
@@ -63,7 +88,7 @@ def run(prop_id, tier, replay=None):
 
     code_outs = []
     for c in cases:
-        code_outs.append(_canon(P.run_code(c)))
+        code_outs.append(safe_run(P, c))
 
     # ---- model ------------------------------------------------------------------------
     model_outs = [None] * len(cases)
@@ -71,7 +96,7 @@ def run(prop_id, tier, replay=None):
     if proof["build_ok"]:
         reqs, spans = [], []
         for c in cases:
-            r = P.model_requests(c, code_outs[len(spans)])
+            r = P.model_requests(c, code_outs[len(spans)]) if "unexpected-exception" not in code_outs[len(spans)] else []
             spans.append((len(reqs), len(reqs) + len(r)))
             reqs += r
         try:
@@ -89,14 +114,14 @@ def run(prop_id, tier, replay=None):
     mismatches = []
     if driver_problem is None:
         for i, c in enumerate(cases):
-            if not P.agree(c, code_outs[i], model_outs[i]):
+            if not safe_agree(P, c, code_outs[i], model_outs[i]):
                 mismatches.append(i)
 
     # ---- property oracle on the real code's results -----------------------------------
     known = [k for k in C.load_known() if k.get("property") == prop_id and k.get("status") == "known"]
     failures, known_hits = [], {}
     for i, c in enumerate(cases):
-        why = P.spec_violation(c, code_outs[i])
+        why = safe_spec(P, c, code_outs[i])
         if why:
             cls = P.classify(c, why)
             hit = next((k for k in known if k.get("match", {}).get("class") == cls and cls), None)
@@ -108,6 +133,9 @@ def run(prop_id, tier, replay=None):
     nontrivial = set()
     hist = {}
     for i, c in enumerate(cases):
+        if "unexpected-exception" in code_outs[i]:
+            hist["unexpected-exception"] = hist.get("unexpected-exception", 0) + 1
+            continue
         k = P.nontrivial_key(c, code_outs[i])
         if k is not None:
             nontrivial.add(json.dumps(k, sort_keys=True, default=str))
@@ -138,9 +166,9 @@ def run(prop_id, tier, replay=None):
         # (i) disagreeing cases were already checked against the spec above; (ii)+(iii):
         for c in P.search(random.Random(f"search/{prop_id}/{seed}"), tier):
             c = _canon(c)
-            out = _canon(P.run_code(c))
+            out = safe_run(P, c)
             searched += 1
-            why = P.spec_violation(c, out)
+            why = safe_spec(P, c, out)
             if why:
                 cls = P.classify(c, why)
                 if not any(k.get("match", {}).get("class") == cls and cls for k in known):
@@ -162,13 +190,13 @@ def run(prop_id, tier, replay=None):
         i, why = failures[0]
         case = cases[i]
         try:
-            case = _canon(P.shrink(case, lambda cc: bool(P.spec_violation(cc, _canon(P.run_code(cc))))))
-            why = P.spec_violation(case, _canon(P.run_code(case))) or why
+            case = _canon(P.shrink(case, lambda cc: bool(safe_spec(P, cc, safe_run(P, cc)))))
+            why = safe_spec(P, case, safe_run(P, case)) or why
         except Exception:
             case = cases[i]
         replay_path = OUT / "replays" / f"{prop_id}-{C.digest(case)}.json"
         C.write_json(replay_path, dict(
-            property=prop_id, kind="counterexample", case=case, code_out=_canon(P.run_code(case)),
+            property=prop_id, kind="counterexample", case=case, code_out=safe_run(P, case),
             violation=why, broken=broken, seed=seed, tier=tier,
             how=f"bin/check {prop_id} --replay {_rel(replay_path)}"))
         lines.append(f"VIOLATION property={prop_id} replay={_rel(replay_path)}")
